@@ -154,4 +154,7 @@ def run(db, chk):
                "variable between workers and registers donors after the region, in node order (shared with "
                "C10-X1 / X2): otherwise receivers depend on the interleaving",
                pred=lambda o: "apply_par" in o["instance"] or "donors rebuilt" in o["instance"], min_instances=3)
+    chk.absorb(db, "C08", {"C08-B8"}, "C04-S6", "the mask handed to set_mask is not read after it was forwarded away "
+               "(shared with C08-B8): a flag derived from the moved-from argument says 'no node is masked'",
+               pred=lambda o: "set_mask" in o["instance"], min_instances=3)
     chk.count_scenarios(n_sc, True)
